@@ -147,6 +147,11 @@ Tree ==
            /\ \A key \in Keys : LET f == Eff(sc.cfg, key[1]) IN
                 /\ Clause("X06.tsbd.bound", LongRun(cnt[key], f.tsbd, sc.dsec) => NMedia(e.files, key[1], key[2]) <= MaxStored(f.tsbd, sc.dsec),
                           <<"ch", key[1], "track", key[2], "uploaded", cnt[key], "stored", NMedia(e.files, key[1], key[2]), "tsbd", f.tsbd>>)
+                /\ Clause("X06.mpd.written",
+                          (key[2] = "v" /\ f.raw = 0 /\ ~f.ignore /\ Cardinality(f.creds) = 1) =>
+                             /\ (cnt[key] >= 2 => \E x \in Range(e.files) : x.ch = key[1] /\ x.kind = "manifest")
+                             /\ ((cnt[key] >= 3 /\ (cnt[<<key[1], "a">>] >= 3 \/ "a" \in f.ignTracks)) => \E x \in Range(e.files) : x.ch = key[1] /\ x.kind = "timeline"),
+                          <<"ch", key[1], "uploaded", cnt[key], cnt[<<key[1], "a">>]>>)
                 /\ Clause("X06.raw.limit", (f.raw > 0 /\ ~f.ignore /\ Cardinality(f.creds) = 1) => NFiles(e.files, key[1], key[2]) <= f.raw,
                           <<"ch", key[1], "track", key[2], "files", NFiles(e.files, key[1], key[2]), "raw", f.raw>>)
            /\ mtree' = e.files
